@@ -16,7 +16,8 @@ def column_lists(rng, t, quick):
         idx = [rng.randrange(len(cols)) for _ in range(k)]          # repeats allowed
         out.append(([cols[i] for i in idx], [sqlc[i] for i in idx]))
     # case variants of the names
-    out.append(([c.upper() for c in cols], sqlc))
+    # SQLite folds the case of ASCII letters only: 'É' and 'é' are different identifiers
+    out.append((["".join(ch.upper() if ch.isascii() else ch for ch in c) for c in cols], sqlc))
     if t["kind"] != "norowid":
         for r in ("rowid", "ROWID", "oid", "_rowid_", "_RowId_"):
             out.append(([r] + cols[:1], ["rowid"] + sqlc[:1]))
